@@ -1,8 +1,9 @@
 (* Effect IR for C20 (model + executable analysis): which parameters of a function may be mutated in place, and which
    parameters its result may alias.  A function body is a BAG of statements that may execute in any order, any number
    of times (an over-approximation of all control flow).  Programs are lists of functions; a function may only call
-   functions that appear EARLIER in the list (the translator emits them in dependency order; unresolved or recursive
-   calls are emitted as calls to a most-pessimistic function). *)
+   functions that appear EARLIER in the list (the translator emits them in dependency order; a recursive call is emitted
+   as its most pessimistic effect: every argument written and aliased by the result and by every attribute).  Object
+   attributes are global variables threaded through calls copy-in / copy-out (parameters + out-variables). *)
 From Coq Require Import List Arith Bool Lia.
 Import ListNotations.
 
@@ -11,9 +12,11 @@ Inductive stmt :=
   | SAlias (d s : var)                       (* d may now refer to the object s refers to (view, transpose, attribute, ...) *)
   | SFresh (d : var)                         (* d refers to a newly allocated object (copy, arithmetic, constructor, ...) *)
   | SWrite (v : var)                         (* the object v refers to is mutated in place *)
-  | SCall (f : nat) (args : list var) (d : var).   (* d := f(args), f an earlier function of the program *)
+  | SCall (f : nat) (args : list var) (d : var) (outs : list var).
+      (* d := f(args), f an earlier function of the program; afterwards the caller's variables [outs] receive the final
+         values of the callee's out-variables (object attributes are threaded through calls copy-in / copy-out) *)
 
-Record func := { f_params : list var; f_body : list stmt; f_rets : list var }.
+Record func := { f_params : list var; f_body : list stmt; f_rets : list var; f_outs : list var }.
 Definition program := list func.
 
 (* ------------------------------------------------------------------ concrete semantics *)
@@ -26,6 +29,9 @@ Record cfg := { st : store; next : loc; written : list loc }.
 Definition bind_params (params : list var) (ls : list (option loc)) : store :=
   fold_right (fun pv s => upd s (fst pv) (snd pv)) (fun _ => None) (combine params ls).
 
+Definition upd_outs (s : store) (vs : list var) (ls : list (option loc)) : store :=
+  fold_right (fun pv s => upd s (fst pv) (snd pv)) s (combine vs ls).
+
 (* runs of a function body: any statement of the body, any number of times; a call runs the callee's body on a store
    that binds its parameters to the locations of the arguments and hands back the location of one of its return
    variables (or a new object) *)
@@ -37,44 +43,54 @@ Inductive steps (P : program) : nat -> list stmt -> cfg -> cfg -> Prop :=
       steps P k body {| st := upd (st c) d (Some (next c)); next := S (next c); written := written c |} c' -> steps P k body c c'
   | st_write k body c c' v l : In (SWrite v) body -> st c v = Some l ->
       steps P k body {| st := st c; next := next c; written := l :: written c |} c' -> steps P k body c c'
-  | st_call k body c c' f args d fn cc res : In (SCall f args d) body -> f < k -> nth_error P f = Some fn ->
+  | st_call k body c c' f args d outs fn cc res : In (SCall f args d outs) body -> f < k -> nth_error P f = Some fn ->
       steps P f (f_body fn) {| st := bind_params (f_params fn) (map (st c) args); next := next c; written := written c |} cc ->
       (res = Some (next cc) \/ exists r, In r (f_rets fn) /\ res = st cc r) ->
-      steps P k body {| st := upd (st c) d res; next := S (next cc); written := written cc |} c' -> steps P k body c c'.
+      steps P k body {| st := upd_outs (upd (st c) d res) outs (map (st cc) (f_outs fn)); next := S (next cc); written := written cc |} c' ->
+      steps P k body c c'.
 
 (* ------------------------------------------------------------------ the analysis *)
 (* summary of a function: indices of the parameters it may write / its result may alias *)
-Record summary := { s_writes : list nat; s_rets : list nat }.
-Definition pessimistic (arity : nat) : summary := {| s_writes := seq 0 arity; s_rets := seq 0 arity |}.
+Record summary := { s_writes : list nat; s_rets : list nat; s_outs : list (list nat) }.
 
 Definition mem (x : nat) (l : list nat) : bool := existsb (Nat.eqb x) l.
 Definition nth_var (i : nat) (l : list var) : option var := nth_error l i.
+
+(* does one of the arguments at the positions [idxs] belong to Vs *)
+Definition reaches (args : list var) (Vs : list var) (idxs : list nat) : bool :=
+  existsb (fun i => match nth_error args i with Some a => mem a Vs | None => false end) idxs.
 
 (* one round of the forward "may hold the same object" closure *)
 Definition grow (sums : list summary) (body : list stmt) (Vs : list var) : list var :=
   fold_right (fun s acc =>
     match s with
     | SAlias d src => if mem src acc && negb (mem d acc) then d :: acc else acc
-    | SCall f args d =>
+    | SCall f args d outs =>
         match nth_error sums f with
-        | Some sm => if existsb (fun i => match nth_error args i with Some a => mem a acc | None => false end) (s_rets sm) && negb (mem d acc)
-                     then d :: acc else acc
-        | None => if existsb (fun a => mem a acc) args && negb (mem d acc) then d :: acc else acc
+        | Some sm =>
+            let acc1 := if reaches args acc (s_rets sm) && negb (mem d acc) then d :: acc else acc in
+            fold_right (fun oso a => if reaches args acc (snd oso) && negb (mem (fst oso) a) then fst oso :: a else a) acc1 (combine outs (s_outs sm))
+        | None => if existsb (fun a => mem a acc) args then d :: outs ++ acc else acc
         end
     | _ => acc
     end) Vs body.
 Fixpoint iterate (n : nat) (sums : list summary) (body : list stmt) (Vs : list var) : list var :=
-  match n with O => Vs | S n' => iterate n' sums body (grow sums body Vs) end.
+  match n with
+  | O => Vs
+  | S n' => let Vs' := grow sums body Vs in
+            if Nat.eqb (length Vs') (length Vs) then Vs else iterate n' sums body Vs'      (* grow only adds: same length = fixpoint *)
+  end.
 
 (* S is closed under the rules: checked, not assumed *)
 Definition closed (sums : list summary) (body : list stmt) (Vs : list var) : bool :=
   forallb (fun s =>
     match s with
     | SAlias d src => implb (mem src Vs) (mem d Vs)
-    | SCall f args d =>
+    | SCall f args d outs =>
         match nth_error sums f with
-        | Some sm => implb (existsb (fun i => match nth_error args i with Some a => mem a Vs | None => false end) (s_rets sm)) (mem d Vs)
-        | None => implb (existsb (fun a => mem a Vs) args) (mem d Vs)
+        | Some sm => implb (reaches args Vs (s_rets sm)) (mem d Vs) &&
+                     forallb (fun oso => implb (reaches args Vs (snd oso)) (mem (fst oso) Vs)) (combine outs (s_outs sm))
+        | None => implb (existsb (fun a => mem a Vs) args) (mem d Vs && forallb (fun o => mem o Vs) outs)
         end
     | _ => true
     end) body.
@@ -84,16 +100,16 @@ Definition writes_into (sums : list summary) (body : list stmt) (Vs : list var) 
   existsb (fun s =>
     match s with
     | SWrite v => mem v Vs
-    | SCall f args d =>
+    | SCall f args d outs =>
         match nth_error sums f with
-        | Some sm => existsb (fun i => match nth_error args i with Some a => mem a Vs | None => false end) (s_writes sm)
+        | Some sm => reaches args Vs (s_writes sm)
         | None => existsb (fun a => mem a Vs) args
         end
     | _ => false
     end) body.
 
 Definition holds (sums : list summary) (fn : func) (p : var) : option (list var) :=
-  let Vs := iterate (S (length (f_body fn))) sums (f_body fn) [p] in
+  let Vs := iterate (S (S (length (f_body fn)))) sums (f_body fn) [p] in
   if closed sums (f_body fn) Vs && mem p Vs then Some Vs else None.
 
 Definition may_write (sums : list summary) (fn : func) (p : var) : bool :=
@@ -101,15 +117,40 @@ Definition may_write (sums : list summary) (fn : func) (p : var) : bool :=
 Definition may_return (sums : list summary) (fn : func) (p : var) : bool :=
   match holds sums fn p with Some Vs => existsb (fun r => mem r Vs) (f_rets fn) | None => true end.
 
+Definition may_reach (sums : list summary) (fn : func) (p o : var) : bool :=
+  match holds sums fn p with Some Vs => mem o Vs | None => true end.
+
 Definition summarise (sums : list summary) (fn : func) : summary :=
   {| s_writes := filter (fun i => match nth_error (f_params fn) i with Some p => may_write sums fn p | None => true end) (seq 0 (length (f_params fn)));
-     s_rets := filter (fun i => match nth_error (f_params fn) i with Some p => may_return sums fn p | None => true end) (seq 0 (length (f_params fn))) |}.
+     s_rets := filter (fun i => match nth_error (f_params fn) i with Some p => may_return sums fn p | None => true end) (seq 0 (length (f_params fn)));
+     s_outs := map (fun o => filter (fun i => match nth_error (f_params fn) i with Some p => may_reach sums fn p o | None => true end)
+                                    (seq 0 (length (f_params fn)))) (f_outs fn) |}.
 
 (* summaries of a whole program, bottom-up *)
 Fixpoint summaries_from (acc : list summary) (P : program) : list summary :=
   match P with [] => acc | fn :: rest => summaries_from (acc ++ [summarise acc fn]) rest end.
 Definition summaries (P : program) : list summary := summaries_from [] P.
 
+(* the same summaries computed with one closure per parameter instead of one per (parameter, question) pair: this is
+   what the harness evaluates; Eff/Sound.v proves [summaries_fast P = summaries P] *)
+Definition idx_filter {A} (g : A -> bool) (hs : list A) : list nat :=
+  map fst (filter (fun ih => g (snd ih)) (combine (seq 0 (length hs)) hs)).
+Definition summarise_fast (sums : list summary) (fn : func) : summary :=
+  let hs := map (holds sums fn) (f_params fn) in
+  {| s_writes := idx_filter (fun h => match h with Some Vs => writes_into sums (f_body fn) Vs | None => true end) hs;
+     s_rets := idx_filter (fun h => match h with Some Vs => existsb (fun r => mem r Vs) (f_rets fn) | None => true end) hs;
+     s_outs := map (fun o => idx_filter (fun h => match h with Some Vs => mem o Vs | None => true end) hs) (f_outs fn) |}.
+Fixpoint summaries_fast_from (acc : list summary) (P : program) : list summary :=
+  match P with [] => acc | fn :: rest => summaries_fast_from (acc ++ [summarise_fast acc fn]) rest end.
+Definition summaries_fast (P : program) : list summary := summaries_fast_from [] P.
+
 (* the obligation emitted for a public entry point: parameter number i of function number k is never written *)
 Definition never_writes (P : program) (k i : nat) : bool :=
   match nth_error (summaries P) k with Some sm => negb (mem i (s_writes sm)) | None => false end.
+
+(* parameter number i of function number k never ends up in (is never aliased by) out-variable number j *)
+Definition never_reaches (P : program) (k i j : nat) : bool :=
+  match nth_error (summaries P) k with
+  | Some sm => match nth_error (s_outs sm) j with Some so => negb (mem i so) | None => false end
+  | None => false
+  end.
